@@ -143,7 +143,8 @@ def run(res, tier, seed, shard, nshards):
                     seq.append("CLOSE")
                 seq_case(res, W, rng, tuple(seq), exhaustive=False)
 
-    H.in_sim(scen, watchdog=3000)
+    with H.ambient((seed, shard, "C05"), res, dims=("multithread", "tls", "dispatcher", "high_fd")):
+        H.in_sim(scen, watchdog=3000)
     W.enableTrace(False)
 
 
